@@ -1,6 +1,8 @@
 (* Model of searchkit/constraints.py: LogFileDateSinceSeeker.find_token,
    find_token_reverse, try_find_line and LogLine.start_offset/end_offset,
-   as the code is NOW (with the `read_offset == 0` stop of find_token_reverse).
+   as the code is NOW (with the `read_offset == 0` stop of find_token_reverse
+   and the short-read / clipped-window end-of-file tests of commit 19d446e;
+   the loops before that commit are kept below as legacy_* variants).
 
    Parameters: H = SEEK_HORIZON (> 0), A = MAX_SEEK_HORIZON_EXPAND (> 0).
    A file is [content : list Z]; only the byte 10 (LF) is interpreted.
@@ -58,6 +60,7 @@ Fixpoint rfind_lf (l : list Z) : option Z :=
          i = chunk.find(LF)
          if i != -1: return FOUND, start + current_offset + i
          current_offset += len(chunk)
+         if len(chunk) < H: return REACHED_EOF, len      # short read
      raise MaxSearchableLineLengthReached
    [attempts] = value of `attempts` when the loop condition is tested. *)
 Fixpoint find_token_loop (H : Z) (c : list Z) (attempts : nat)
@@ -70,7 +73,8 @@ Fixpoint find_token_loop (H : Z) (c : list Z) (attempts : nat)
       | [] => ReachedEof (lenZ c)
       | _ => match find_lf chunk with
              | Some i => Found (start + cur + i)
-             | None => find_token_loop H c a start (cur + lenZ chunk)
+             | None => if lenZ chunk <? H then ReachedEof (lenZ c)
+                       else find_token_loop H c a start (cur + lenZ chunk)
              end
       end
   end.
@@ -89,6 +93,7 @@ Definition find_token (H A : Z) (c : list Z) (start : Z) : tok :=
          if not chunk: return REACHED_EOF, 0
          i = chunk.rfind(LF)
          if i != -1: return FOUND, read_offset + i
+         if read_size < H: return REACHED_EOF, 0            # clipped window
          if attempts <= 0: break
          current_offset -= len(chunk)
          if read_offset == 0: return REACHED_EOF, 0
@@ -108,12 +113,13 @@ Fixpoint find_token_reverse_loop (H : Z) (c : list Z) (attempts : nat)
       | _ => match rfind_lf chunk with
              | Some i => Found (ro + i)
              | None =>
-                 match a with
-                 | O => ErrMaxLine
-                 | S _ => if ro =? 0 then ReachedEof 0
-                          else find_token_reverse_loop H c a start
-                                 (cur - lenZ chunk)
-                 end
+                 if rs <? H then ReachedEof 0
+                 else match a with
+                      | O => ErrMaxLine
+                      | S _ => if ro =? 0 then ReachedEof 0
+                               else find_token_reverse_loop H c a start
+                                      (cur - lenZ chunk)
+                      end
              end
       end
   end.
@@ -157,6 +163,65 @@ Definition try_find_line (H A : Z) (c : list Z) (epicenter : Z)
              (tok_off slf <=? tok_off elf)
           then Line slf elf else LineAssert
       end
+  end.
+
+
+(* ---- the loops BEFORE commit 19d446e (regression corpus) -----------------
+   Without the short-read / clipped-window tests the forward scan needed one
+   more attempt for the empty read and the backward scan never reported
+   start-of-file on its last attempt: a first line or an unterminated last
+   line only got (A-1)*H of the A*H budget (Proofs/SeekLegacy.v). *)
+Fixpoint legacy_find_token_loop (H : Z) (c : list Z) (attempts : nat)
+         (start cur : Z) : tok :=
+  match attempts with
+  | O => ErrMaxLine
+  | S a =>
+      let chunk := read c (start + cur) H in
+      match chunk with
+      | [] => ReachedEof (lenZ c)
+      | _ => match find_lf chunk with
+             | Some i => Found (start + cur + i)
+             | None => legacy_find_token_loop H c a start (cur + lenZ chunk)
+             end
+      end
+  end.
+Definition legacy_find_token (H A : Z) (c : list Z) (start : Z) : tok :=
+  legacy_find_token_loop H c (Z.to_nat A) start 0.
+
+Fixpoint legacy_find_token_reverse_loop (H : Z) (c : list Z) (attempts : nat)
+         (start cur : Z) : tok :=
+  match attempts with
+  | O => ErrMaxLine
+  | S a =>
+      let ro := if start + cur >? 0 then start + cur else 0 in
+      let rs := if start + cur <=? 0 then H + (start + cur) else H in
+      let chunk := read c ro rs in
+      match chunk with
+      | [] => ReachedEof 0
+      | _ => match rfind_lf chunk with
+             | Some i => Found (ro + i)
+             | None =>
+                 match a with
+                 | O => ErrMaxLine
+                 | S _ => if ro =? 0 then ReachedEof 0
+                          else legacy_find_token_reverse_loop H c a start
+                                 (cur - lenZ chunk)
+                 end
+             end
+      end
+  end.
+Definition legacy_find_token_reverse (H A : Z) (c : list Z) (start : Z) : tok :=
+  legacy_find_token_reverse_loop H c (Z.to_nat A) start (- H).
+
+(* try_find_line(epicenter) of the old code, no known line feeds *)
+Definition legacy_try_find_line (H A : Z) (c : list Z) (epicenter : Z)
+  : option (tok * tok) :=
+  match legacy_find_token H A c epicenter with
+  | ErrMaxLine => None
+  | elf => match legacy_find_token_reverse H A c epicenter with
+           | ErrMaxLine => None
+           | slf => Some (slf, elf)
+           end
   end.
 
 (* what the harness observes: (status, offset) pairs *)
